@@ -355,6 +355,12 @@ static int do_topo(const char *backend, const char *method, unsigned long tflags
       pid_t pid; int st = 0;
       printf("reload-nbpus %d\n", hwloc_get_nbobjs_by_type(t, HWLOC_OBJ_PU) * ((opts & 16) ? 4 : 1));
       if (opts & 16) printf("reload-cpukinds %d\n", hwloc_cpukinds_get_nr(t, 0));
+      { /* topology-level infos of the reloaded topology: nothing of the failed document may survive */
+        struct hwloc_infos_s *ti = hwloc_topology_get_infos(t); unsigned k;
+        printf("reload-infos %u", ti ? ti->count : 0);
+        for (k = 0; ti && k < ti->count && k < 20; k++) { putchar(' '); hwv_pstr(stdout, ti->array[k].name); }
+        putchar('\n');
+      }
       fflush(stdout);
       pid = fork();
       if (!pid) { hwloc_topology_check(t); _exit(0); }
